@@ -189,24 +189,24 @@ def exec_op(inp):
         ev["new"] = {"k": "f", "v": enc.enc_fmtstr(FmtStr.from_str(new))}
         ev["rawnew"] = inp["new"]
         if op == "append":
-            ev["res"] = enc_res(lambda: f.append(new))
+            ev["res"] = enc_res(lambda: enc.call(f.append, new))
         elif inp["en"]:
-            ev["res"] = enc_res(lambda: f.splice(new, inp["s"]))
+            ev["res"] = enc_res(lambda: enc.call(f.splice, new, inp["s"]))
         else:
-            ev["res"] = enc_res(lambda: f.splice(new, inp["s"], inp["e"]))
+            ev["res"] = enc_res(lambda: enc.call(f.splice, new, inp["s"], inp["e"]))
         ev["f2"] = enc.enc_fmtstr(f)
     elif op == "splice":
         f = B(inp["f"])
         new = enc.build_value(inp["new"])
         if inp["en"]:
-            ev["res"] = enc_res(lambda: f.splice(new, inp["s"]))
+            ev["res"] = enc_res(lambda: enc.call(f.splice, new, inp["s"]))
         else:
-            ev["res"] = enc_res(lambda: f.splice(new, inp["s"], inp["e"]))
+            ev["res"] = enc_res(lambda: enc.call(f.splice, new, inp["s"], inp["e"]))
         ev["f2"] = enc.enc_fmtstr(f)
     elif op == "append":
         f = B(inp["f"])
         new = enc.build_value(inp["new"])
-        ev["res"] = enc_res(lambda: f.append(new))
+        ev["res"] = enc_res(lambda: enc.call(f.append, new))
         ev["f2"] = enc.enc_fmtstr(f)
     else:
         raise ValueError("unknown op " + op)
